@@ -255,6 +255,8 @@ NonMutating(gc, req, resp) ==
   \/ req.op = "AddVersion" /\ resp.kind \in {"conflict", "nosuchclient"}
   \/ req.op = "AddSnapshot" /\ ~SnapAccepts(gc, req.arg) /\ ~(SnapCorner(gc, req.arg) /\ ~gc.snap.has)
   \/ resp.kind \in {"refused", "other"}
+  \* a request that is answered with a server error (or dies) is a refused request as well
+  \/ resp.kind \in {"error", "panic"}
 
 C18_Step(gc, pre, post, req, resp) == NonMutating(gc, req, resp) => post = pre
 
